@@ -19,6 +19,11 @@ func SpecFor(prop, tier string) MassSpec {
 			{Text: `{ts{plain @fq kidsReq{id @fq}} node{id @fq ... on T{name @fq}}}`},
 			{Text: `{t{guarded @fq ints @fq} tReq{req @fq}}`},
 			{Text: `mutation{m1{name @fq} m3 @fq}`},
+			// executable directives on the operation definition
+			{Text: `query @oq {t{id name} str}`},
+			{Text: `query Q @oq(tag:"x") {tReq{req}}`},
+			{Text: `mutation @om {m1{id name} m3}`},
+			{Text: `mutation M @om(tag:"x") {m3 m2{req}}`},
 		}
 		sp.ExtraOps = append(sp.ExtraOps, fqOps...)
 		sp.Gens = append(sp.Gens, GenCfg{Root: "Query", Fields: fieldsFor("core"), Conds: ProbeConds, MaxNodes: 3, DirVariants: []string{"@fq"}})
